@@ -204,7 +204,10 @@ def main():
                               # fewer scale factors than the fit has coefficients: the fit is not determined - an error
                               # (ValueError) is the right answer, a value must still be the exact one
                               ("underdetermined_poly3", Z.create_polynomial_extrapolate(3), [1, 3]),
-                              ("underdetermined_poly2", Z.create_polynomial_extrapolate(2), [1, 2])]
+                              ("underdetermined_poly2", Z.create_polynomial_extrapolate(2), [1, 2]),
+                              # ... also when the scale factors are enough in number but not distinct
+                              ("underdetermined_repeated", Z.create_polynomial_extrapolate(2), [1, 1, 3]),
+                              ("underdetermined_repeated3", Z.create_polynomial_extrapolate(3), [1, 2, 2, 2])]
             for mname in sorted(methods):
                 for ex_name, ex, sfs in extrapolations:
                     zest = Z.create_zne_estimator(est, sfs, ex, methods[mname])
